@@ -20,4 +20,10 @@ def run_deductive(rep):
         items += C03_more.items(rep)
     except ImportError:
         pass
+    # the weights of the named metrics travel through MetricFrame's sample_params plumbing: own entry per metric, values copied label-free, caller's mapping untouched
+    from ..contracts.metricframe import AnnotatedCall, ConstructAMF, GetAnnotatedFunctions
+    items += [(ConstructAMF([("sample_weight", False)]), [("weights_stored_with_the_callers_index", verify.replace_expr("np.asarray(param_value)", "param_value"))]),
+              (AnnotatedCall({"sample_weight": "m_sample_weight"}), []), (GetAnnotatedFunctions("callable"), []), (GetAnnotatedFunctions("dict"), [])]
     verify.verify_many(rep, items)
+    from ..static import provenance
+    provenance.report(rep, only=["_metric_frame.py"])
